@@ -175,7 +175,7 @@ CLAIMED.update({
             'Documents are modelled as element trees and diffed against the real lxml output; XPath oracles on the real output. '
             'The serialised text itself (lxml pretty printing, attribute escaping, ValueError on non-XML text, the jigg score '
             'attribute) is modelled to the character (Print/XmlText.lean) and compared with the real text; an XML reader written '
-            'in Lean reads it back to the element trees (xml_parse_render, xml_text_decode, jigg_text_decode).',
+            'in Lean reads it back to the element trees (xml_parse_render, xml_text_decode, jigg_text_decode); composed with the round trips at file level: xml_file_roundtrip, jigg_file_roundtrip_ja; the same pipeline runs on the real files next to read_xml / read_jigg_xml (lxml).',
             NOTE + 'lxml parsing trusted (serialisation is modelled and compared); ccg2lambda semantic composition needs NLTK (absent): not covered.',
             'DESIGN.md §4 C15'),
     'C17': (T_PROOF,
